@@ -331,6 +331,9 @@ def _fast(rec, case):
     p = int(rng.integers(1, 4)) if dim == 2 else int(rng.integers(1, 3))
     n = int(rng.integers(3, 9)) if dim == 2 else int(rng.integers(2, 5))
     kvs = dim * (bspline.make_knots(p, 0.0, 1.0, n),)
+    if case['idx'] % 3:
+        # a different degree and size in every direction
+        kvs = tuple(bspline.make_knots(int(rng.integers(1, 4)), 0.0, 1.0, int(rng.integers(2, 7 if dim == 2 else 4))) for _ in range(dim))
     gname = str(rng.choice(['quarter_annulus', 'bspline_quarter_annulus', 'perturbed'])) if dim == 2 else 'twisted_box'
     if gname == 'perturbed':
         st = np.random.get_state(); np.random.seed(int(rng.integers(0, 2 ** 31))); geo = geometry.perturbed_square(3, 0.02); np.random.set_state(st)
@@ -338,7 +341,7 @@ def _fast(rec, case):
         geo = getattr(geometry, gname)()
     tol = float(10.0 ** rng.uniform(-10, -4))
     which = str(rng.choice(['mass', 'stiffness']))
-    c = dict(case, dim=dim, p=p, n=n, geo=gname, tol=tol, which=which)
+    c = dict(case, dim=dim, p=[int(k.p) for k in kvs], n=[int(k.numspans) for k in kvs], geo=gname, tol=tol, which=which)
     rec.case(c, nontrivial=True)
     sig = {'route': 'fast_assembler', 'dim': dim, 'which': which}
     ref = getattr(assemble, which)(kvs, geo).toarray()
@@ -354,4 +357,14 @@ def _fast(rec, case):
         Ad = A.toarray() if hasattr(A, 'toarray') else np.asarray(A)
         if Ad.shape != ref.shape:
             rec.violation(dict(sig, oracle='shape'), c, {}); return
-        rec.check_close('fast_assembler', float(np.abs(Ad - ref).max()), 100 * tol + 1e-12 * np.abs(ref).max(), sig, c)
+        err = float(np.abs(Ad - ref).max()); bound = 100 * tol + 1e-12 * np.abs(ref).max()
+        if not err <= bound:
+            # the known premature stop of the cross approximation depends on the state of rand(): repeat the call; a deviation
+            # that comes back every time has another cause
+            again = []
+            for _ in range(4):
+                with contextlib.redirect_stdout(io.StringIO()):
+                    ok2, A2 = guarded(rec, c, sig, getattr(assemble, which + '_fast'), kvs, geo, tol=tol, maxiter=200, verbose=0)
+                again.append(bool(ok2 and float(np.abs((A2.toarray() if hasattr(A2, 'toarray') else np.asarray(A2)) - ref).max()) > bound))
+            sig = dict(sig, reproducible=all(again))
+        rec.check_close('fast_assembler', err, bound, sig, c)
